@@ -33,3 +33,10 @@ def run(ctx):
     ctx.floor("J3", 9)
     ctx.floor("J4", 8)
     ctx.floor("J5", 6)
+    from ..engines import dispatch as DP
+    DP.d3_hash_implies_eq(ctx)
+    ctx.floor("D3", 2)
+    G.g8_labels_after_final_rules(ctx)
+    ctx.floor("G8", 1)
+    J.j9_class_ids_are_positions(ctx)
+    ctx.floor("J9", 2)
